@@ -169,3 +169,17 @@ PROPS["C10"] = dict(
     rule="a case is (program, context); non-trivial when the range has >= 2 elements or the body "
          "raises or logs on some element; distinct by program text and context",
 )
+
+PROPS["C11"] = dict(
+    streams=["C11"],
+    compare=cmp_eval,
+    classify=lambda case, model, why: dict(kind="failing-input", why=why),
+    gate_imports=EVAL_GATE + "From Cel.Model Require Import Macros.\nFrom Cel.Proofs Require Import CtxEquiv MacroProofs ContextProofs.",
+    exhaustive=True,
+    exhaustive_note="every sequence of define/redefine/open/drop/lookup operations of length <= 5 "
+                    "(thorough: <= 7) over 3 names and 3 scope levels that ends in a lookup; plus "
+                    "random longer sequences and programs nesting up to 3 macros whose variables "
+                    "reuse context variable and function names, with lookups after the macro",
+    rule="a case is an operation sequence or a program; non-trivial when a name is defined at two "
+         "live scope levels (shadowing occurs) or the program nests macros; distinct by its text",
+)
